@@ -173,9 +173,19 @@ func hashLen(r *vcommon.Rand, thorough bool) int {
 // ============================================================================ ed25519
 
 // C29-K1: lib/crypto/ed25519 verifies with Go's crypto/ed25519 (RFC 8032,
-// cofactorless equation, R compared as bytes) instead of ZIP-215. The verdicts
-// can only differ when A or R carries an 8-torsion component or R is not
-// canonically encoded, and only in the direction "ZIP-215 accepts, gossamer rejects".
+// cofactorless equation, R compared as bytes) instead of ZIP-215. Attribution
+// is made by a DEVIATION ORACLE (DESIGN.md §2.5), not by the shape of the input:
+// refVerifyRFC8032 (refed.go) is the specification with exactly that deviation
+// switched on. Per (A, msg, sig) and entry point:
+//
+//	impl == ZIP-215                          -> ok
+//	impl != ZIP-215 and impl == RFC 8032 model -> known finding C29-K1
+//	impl != ZIP-215 and impl != RFC 8032 model -> VIOLATION ed25519-neither-zip215-nor-rfc8032
+//
+// so a change that makes gossamer reject (or accept) something that BOTH
+// verifiers decide the other way - e.g. refusing the all-zero public key, a valid
+// encoding of an order-4 point, which crypto/ed25519 accepts whenever k = 0 mod 4 -
+// is a violation although A has small order.
 const knownEd = "C29-K1"
 
 type edImplVerdict struct {
@@ -202,22 +212,31 @@ func edImpl(pub, msg, sig []byte) (v edImplVerdict, panicked string) {
 	return
 }
 
+// edKeyLabel names a small-order public key encoding in counters: first two and last byte.
+func edKeyLabel(enc []byte) string { return fmt.Sprintf("%x_%x", enc[:2], enc[31:]) }
+
 func checkEd(c *vcommon.Case, kind string, pub, msg, sig []byte) {
 	w := map[string]any{"kind": kind, "pub": hx(pub), "sig": hx(sig), "msg": hx(msg)}
 	ref := EdVerifyZIP215(pub, msg, sig)
+	mod := refVerifyRFC8032(pub, msg, sig)
 	impl, p := edImpl(pub, msg, sig)
 	c.Count("ed_cases", 1)
 	c.Count("ed_kind_"+kind, 1)
-	c.Eval(3)
 	if p != "" {
 		w["panic"] = p
 		c.Violation("panic", "ed25519 verification panicked", w)
 		return
 	}
+	c.Eval(1)
 	if impl.method != impl.fn || impl.method != impl.vs {
 		w["impl"] = fmt.Sprintf("%+v", impl)
 		c.Violation("ed-entry-points-disagree", "PublicKey.Verify, Verify and VerifySignature give different verdicts", w)
 	}
+	type entry struct {
+		name   string
+		accept bool
+	}
+	eps := []entry{{"PublicKey.Verify", impl.method}, {"Verify", impl.fn}, {"VerifySignature", impl.vs}}
 	if host != nil && len(pub) == 32 && len(sig) == 64 {
 		var hv uint32
 		c.Eval(1)
@@ -225,9 +244,12 @@ func checkEd(c *vcommon.Case, kind string, pub, msg, sig []byte) {
 		if p := guard(func() { hv = host.Verify("ed25519_verify_1", sig, msg, pub) }); p != "" {
 			w["panic"] = p
 			c.Violation("panic", "ext_crypto_ed25519_verify_version_1 panicked", w)
-		} else if (hv == 1) != impl.method || hv > 1 {
-			w["host"] = hv
-			c.Violation("host-ed25519-verify", fmt.Sprintf("ext_crypto_ed25519_verify_version_1 = %d but PublicKey.Verify = %v", hv, impl.method), w)
+		} else {
+			if (hv == 1) != impl.method || hv > 1 {
+				w["host"] = hv
+				c.Violation("host-ed25519-verify", fmt.Sprintf("ext_crypto_ed25519_verify_version_1 = %d but PublicKey.Verify = %v", hv, impl.method), w)
+			}
+			eps = append(eps, entry{"ext_crypto_ed25519_verify_version_1", hv == 1})
 		}
 	}
 	if ref.Accept {
@@ -235,9 +257,11 @@ func checkEd(c *vcommon.Case, kind string, pub, msg, sig []byte) {
 	} else {
 		c.Count("ed_ref_reject_"+ref.Reason, 1)
 	}
-	// Go's crypto/ed25519 decodes A as permissively as ZIP-215; it differs in the equation (no cofactor) and in
-	// comparing R as bytes. For A and R in the prime-order subgroup and a canonical R the two verdicts coincide.
-	special := (ref.ADecoded && ref.ATorsion) || (ref.RDecoded && (ref.RTorsion || !ref.RCanonical))
+	if mod.Accept {
+		c.Count("ed_rfc8032_model_accept", 1)
+	} else {
+		c.Count("ed_rfc8032_model_reject_"+mod.Reason, 1)
+	}
 	if ref.ADecoded && ref.ATorsion {
 		c.Count("ed_A_torsion", 1)
 	}
@@ -253,24 +277,70 @@ func checkEd(c *vcommon.Case, kind string, pub, msg, sig []byte) {
 	if !ref.SCanonical {
 		c.Count("ed_S_noncanonical", 1)
 	}
-	c.Distinct(fmt.Sprintf("ed/%s/%v/%s/%v%v%v%v/%d", kind, ref.Accept, ref.Reason, ref.ATorsion, ref.RTorsion, ref.ACanonical, ref.RCanonical, len(msg)))
+	c.Distinct(fmt.Sprintf("ed/%s/%v/%s/%v/%s/%v%v%v%v/%d", kind, ref.Accept, ref.Reason, mod.Accept, mod.Reason, ref.ATorsion, ref.RTorsion, ref.ACanonical, ref.RCanonical, len(msg)))
 	w["zip215"] = fmt.Sprintf("%+v", ref)
+	w["rfc8032_model"] = fmt.Sprintf("accept=%v reason=%s R'=%x", mod.Accept, mod.Reason, mod.RPrime)
 	w["impl_accept"] = impl.method
-	switch {
-	case ref.Accept == impl.method:
-		if special && ref.Accept {
-			c.Count("ed_special_both_accept", 1)
+	// The model must be what it claims to be: Go's crypto/ed25519 semantics. The standard library only VETOES
+	// (inconclusive) here, it never attributes; and cofactorless acceptance implies cofactored acceptance.
+	if len(pub) == 32 {
+		c.Eval(1)
+		if std := GoStdVerify(pub, msg, sig); std != mod.Accept {
+			c.Inconclusive(fmt.Sprintf("RFC 8032 model = %v but crypto/ed25519 = %v: pub %x msg %x sig %x", mod.Accept, std, pub, msg, sig))
+			return
 		}
-	case impl.method && !ref.Accept:
-		c.Violation("ed-accepts-invalid", "gossamer accepts an ed25519 signature that ZIP-215 rejects ("+ref.Reason+")", w)
-	case special:
-		c.Count("ed_zip215_only_accept", 1)
-		c.Known(knownEd, "ZIP-215 accepts, lib/crypto/ed25519 (Go crypto/ed25519, cofactorless, canonical R) rejects", w)
-	default:
-		c.Violation("ed-rejects-valid", "gossamer rejects an ed25519 signature with prime-order A, prime-order canonically encoded R that ZIP-215 accepts", w)
+		c.Count("ed_model_eq_go_stdlib", 1)
 	}
-	if kind == "mixed_order" || kind == "honest" {
-		sampleOnce(c, "ed25519_"+kind, map[string]any{"pub": hx(pub), "sig": hx(sig), "msglen": len(msg), "zip215": ref.Accept,
+	if mod.Accept && !ref.Accept {
+		c.Inconclusive(fmt.Sprintf("oracles inconsistent: RFC 8032 model accepts, ZIP-215 reference rejects (%s): pub %x msg %x sig %x", ref.Reason, pub, msg, sig))
+		return
+	}
+	// coverage classes, decided from the two oracles only (not from the implementation, not from the case kind)
+	smallA := ref.ADecoded && ref.ASmallOrder
+	switch {
+	case ref.Accept && mod.Accept:
+		c.Count("ed_both_models_accept", 1)
+		if smallA {
+			c.Count("ed_smallA_both_accept", 1)
+			c.Count("ed_smallA_"+edKeyLabel(pub)+"_both_accept", 1)
+		} else if ref.ATorsion || ref.RTorsion {
+			c.Count("ed_mixed_both_accept", 1)
+		}
+	case ref.Accept:
+		c.Count("ed_zip215_only_accept", 1)
+		c.Count("ed_zip215_only_"+mod.Reason, 1)
+		if smallA {
+			c.Count("ed_smallA_zip215_only", 1)
+			c.Count("ed_smallA_"+edKeyLabel(pub)+"_zip215_only", 1)
+		}
+	default:
+		if smallA {
+			c.Count("ed_smallA_both_reject", 1)
+		}
+	}
+	var k1 []string
+	for _, ep := range eps {
+		c.Eval(1)
+		switch {
+		case ep.accept == ref.Accept:
+		case ep.accept == mod.Accept:
+			k1 = append(k1, ep.name)
+		default:
+			dir := "rejects what ZIP-215 and the RFC 8032 (Go crypto/ed25519) model both accept"
+			if ep.accept {
+				dir = "accepts what ZIP-215 (" + ref.Reason + ") and the RFC 8032 model (" + mod.Reason + ") both reject"
+			}
+			w["entry_point"] = ep.name
+			c.Violation("ed25519-neither-zip215-nor-rfc8032", ep.name+" "+dir, w)
+		}
+	}
+	if len(k1) > 0 {
+		c.Count("ed_k1_hits", 1)
+		w["entry_points"] = fmt.Sprint(k1)
+		c.Known(knownEd, "ZIP-215 accepts, gossamer rejects exactly as the RFC 8032 model of Go crypto/ed25519 does ("+mod.Reason+": cofactorless equation, R compared as canonical bytes)", w)
+	}
+	if kind == "mixed_order" || kind == "honest" || kind == "special_A_accept" || kind == "special_A_zip215_only" {
+		sampleOnce(c, "ed25519_"+kind, map[string]any{"pub": hx(pub), "sig": hx(sig), "msg": hx(msg), "zip215": ref.Accept, "rfc8032_model": mod.Accept,
 			"gossamer": impl.method, "A_torsion": ref.ATorsion, "R_torsion": ref.RTorsion})
 	}
 }
@@ -344,7 +414,114 @@ func edFixedCorpus() []edFixed {
 		r := encs[(i*5+3)%len(encs)]
 		out = append(out, edFixed{"small_order_SL", a, []byte("Zcash"), append(append([]byte{}, r...), leBytes(edL, 32)...)})
 	}
+	// every small-order key with R = identity (canonical), S = 0: valid under ZIP-215 for every message, valid under
+	// RFC 8032 / crypto/ed25519 iff [k]A = 0. One message of each challenge residue class mod ord(A), found by counting
+	// (seed-independent). A = 00..00 with k = 0 mod 4 is the witness of the "all-zero key is unset" regression.
+	ident32 := append(append([]byte{}, ident...), make([]byte, 32)...)
+	for _, a := range encs {
+		A, _, _ := EdDecodeZIP215(a)
+		ord := EdOrder(A)
+		seen := map[int64]bool{}
+		for n := 0; len(seen) < ord && n < 4096; n++ {
+			m := []byte(fmt.Sprintf("C29 special key %d", n))
+			res := new(big.Int).Mod(edHash(ident, a, m), big.NewInt(int64(ord))).Int64()
+			if seen[res] {
+				continue
+			}
+			seen[res] = true
+			out = append(out, edFixed{"special_A_fixed", a, m, ident32})
+		}
+	}
 	return out
+}
+
+// edSpecialA exercises one small-order ("special") public key encoding - the identity, the order-2 point, the
+// all-zero key and the other order-4 encodings, the order-8 points, canonical and non-canonical - with messages
+// SEARCHED so that the challenge k = H(R,A,M) falls into a chosen residue class mod ord(A):
+//
+//   - R' = [r]B - [m]A with k = m (mod ord A): the cofactorless equation holds, ZIP-215 and crypto/ed25519 both accept
+//     -> the implementation must accept (any rejection is a violation, whatever the key looks like);
+//   - k != m (mod ord A), a torsion component added to R, or R non-canonically encoded: only ZIP-215 accepts (C29-K1);
+//   - S off by one: both reject.
+func edSpecialA(c *vcommon.Case, aEnc []byte) {
+	r := c.R
+	A, _, ok := EdDecodeZIP215(aEnc)
+	if !ok {
+		c.Inconclusive("special key does not decode")
+		return
+	}
+	ord := EdOrder(A)
+	_, _, tor := edSmallOrderEncodings()
+	// search a message (random prefix + counter) whose challenge residue mod ord satisfies want
+	search := func(rEnc []byte, want func(res int) bool) []byte {
+		base := r.Bytes(msgLen(r))
+		for n := 0; n < 4096; n++ {
+			m := append(append([]byte{}, base...), byte(n), byte(n>>8))
+			if n == 0 {
+				m = base
+			}
+			res := int(new(big.Int).Mod(edHash(rEnc, aEnc, m), big.NewInt(int64(ord))).Int64())
+			if want(res) {
+				c.Count("ed_special_search_steps", n+1)
+				return m
+			}
+		}
+		return nil
+	}
+	commit := func(m int) (rEnc, S []byte) { // R = [r]B - [m]A (r = 0 in one of three cases), canonical encoding
+		rr := big.NewInt(0)
+		if !r.Chance(1, 3) {
+			rr = randScalar(r)
+		}
+		return edB.Mul(rr).Add(A.Mul(big.NewInt(int64(m))).Neg()).Encode(), leBytes(rr, 32)
+	}
+	cat := func(a, b []byte) []byte { return append(append([]byte{}, a...), b...) }
+	// 1. both verifiers accept
+	m := r.Intn(ord)
+	rEnc, S := commit(m)
+	if msg := search(rEnc, func(res int) bool { return res == m }); msg != nil {
+		c.Count(fmt.Sprintf("ed_special_residue_%d_mod_%d_match", m, ord), 1)
+		checkEd(c, "special_A_accept", aEnc, msg, cat(rEnc, S))
+		// 3. the same with S + 1: both reject
+		if r.Chance(1, 4) {
+			S1 := leInt(S)
+			S1.Add(S1, big1).Mod(S1, edL)
+			checkEd(c, "special_A_bad_S", aEnc, msg, cat(rEnc, leBytes(S1, 32)))
+		}
+	}
+	// 2. only ZIP-215 accepts
+	variant := r.Intn(3)
+	if ord == 1 && variant == 0 {
+		variant = 1 + r.Intn(2)
+	}
+	switch variant {
+	case 0: // challenge residue does not match
+		m := r.Intn(ord)
+		rEnc, S := commit(m)
+		if msg := search(rEnc, func(res int) bool { return res != m }); msg != nil {
+			c.Count("ed_special_residue_mismatch", 1)
+			checkEd(c, "special_A_zip215_only", aEnc, msg, cat(rEnc, S))
+		}
+	case 1: // torsion component on R that [k]A cannot cancel for this message
+		rr := randScalar(r)
+		j := r.Range(1, 7)
+		rEnc := edB.Mul(rr).Add(tor[j]).Encode()
+		msg := search(rEnc, func(res int) bool { return !tor[j].Add(A.Mul(big.NewInt(int64(res)))).IsIdentity() })
+		if msg != nil {
+			c.Count("ed_special_R_torsion", 1)
+			checkEd(c, "special_A_zip215_only", aEnc, msg, cat(rEnc, leBytes(rr, 32)))
+		}
+	case 2: // R non-canonically encoded (small-order R, S = 0): never equal to the re-encoded R'
+		encs, _, _ := edSmallOrderEncodings()
+		for {
+			i := r.Intn(len(encs))
+			if _, canon, _ := EdDecodeZIP215(encs[i]); !canon {
+				c.Count("ed_special_R_noncanonical", 1)
+				checkEd(c, "special_A_zip215_only", aEnc, r.Bytes(msgLen(r)), cat(encs[i], make([]byte, 32)))
+				break
+			}
+		}
+	}
 }
 
 func edRandom(c *vcommon.Case, tor []*EdPoint) {
@@ -419,6 +596,21 @@ func edRandom(c *vcommon.Case, tor []*EdPoint) {
 		if r.Chance(1, 3) {
 			s2[r.Intn(64)] ^= 1 << uint(r.Intn(8))
 			checkEd(c, "mixed_order_tampered", aEnc, msg, s2)
+		}
+		if r.Chance(1, 3) { // same construction, message searched so that the torsion parts cancel (T_j + [k]T_i = 0):
+			// the cofactorless equation holds too, crypto/ed25519 accepts, so must the implementation
+			i, m := r.Range(1, 7), r.Intn(8)
+			j := (8 - (m*i)%8) % 8
+			aEnc := edB.Mul(a).Add(tor[i]).Encode()
+			rEnc := edB.Mul(rr).Add(tor[j]).Encode()
+			for n := 0; n < 4096; n++ {
+				m2 := append(append([]byte{}, msg...), byte(n), byte(n>>8))
+				k8 := int(new(big.Int).Mod(edHash(rEnc, aEnc, m2), big8).Int64())
+				if (j+k8*i)%8 == 0 {
+					checkEd(c, "mixed_order_cofactorless", aEnc, m2, edSignWith(a, rr, aEnc, rEnc, m2))
+					break
+				}
+			}
 		}
 	case 6: // small-order A (any encoding) with an honest commitment: S = r verifies for every message under ZIP-215
 		encs := EdEncodings(tor[r.Intn(8)])
@@ -1171,6 +1363,22 @@ func TestVerifC29(t *testing.T) {
 	r.Floor("ed_S_noncanonical", 20)
 	r.Floor("ed_ref_reject_A_not_on_curve", 5)
 	r.Floor("ed_ref_reject_R_not_on_curve", 5)
+	// deviation oracle: both outcome classes must occur in numbers, overall and for every special key
+	r.Floor("ed_model_eq_go_stdlib", 1000)
+	r.Floor("ed_model_selftest_cases", 10000)
+	r.Floor("ed_model_selftest_go_accept", 1000)
+	r.Floor("ed_both_models_accept", 300)
+	r.Floor("ed_mixed_both_accept", 20)
+	r.Floor("ed_zip215_only_accept", 300)
+	r.Floor("ed_zip215_only_R_bytes_differ", 300)
+	r.Floor("ed_smallA_both_accept", 14*24)
+	r.Floor("ed_smallA_zip215_only", 14*24)
+	r.Floor("ed_smallA_both_reject", 30)
+	specialEncs, _, _ := edSmallOrderEncodings()
+	for _, e := range specialEncs {
+		r.Floor("ed_smallA_"+edKeyLabel(e)+"_both_accept", 24)
+		r.Floor("ed_smallA_"+edKeyLabel(e)+"_zip215_only", 24)
+	}
 	r.Floor("sk_verify_ref_accept", 50)
 	r.Floor("sk_verify_ref_reject_high_s", 20)
 	r.Floor("sk_verify_ref_reject_range", 20)
@@ -1244,6 +1452,26 @@ func TestVerifC29(t *testing.T) {
 		}
 	})
 	r.Cases("ed-rand", r.Scale(700), func(c *vcommon.Case) { edRandom(c, tor) })
+	r.Cases("ed-special", r.Scale(14*36), func(c *vcommon.Case) { edSpecialA(c, specialEncs[c.Idx%len(specialEncs)]) })
+	// validation of the RFC 8032 deviation model against crypto/ed25519 on >= 10 000 edge cases per run (25 per case);
+	// a disagreement makes the check inconclusive, never a violation
+	r.Cases("ed-model", 400+r.Scale(40), func(c *vcommon.Case) {
+		var st EdModelStats
+		c.Eval(25)
+		if bad := EdModelCompare(c.R, 25, &st); bad != "" {
+			c.Inconclusive(bad)
+			return
+		}
+		c.Count("ed_model_selftest_cases", st.Cases)
+		c.Count("ed_model_selftest_go_accept", st.GoAccept)
+		c.Count("ed_model_selftest_go_reject", st.GoReject)
+		c.Count("ed_model_selftest_accept_A_y_ge_p", st.AcceptNonCanonY)
+		c.Count("ed_model_selftest_accept_A_x0_sign", st.AcceptZeroXS)
+		for k, n := range st.Kinds {
+			c.Count("ed_model_selftest_kind_"+k, n)
+		}
+		c.Distinct(fmt.Sprintf("edmodel/%d/%d", st.GoAccept, len(st.Kinds)))
+	})
 
 	// ---- secp256k1
 	skFix := skFixedCorpus()
